@@ -558,3 +558,231 @@ theorem c19_group2 :
 end
 
 end Updater
+
+namespace Updater
+
+section
+variable (env : Env) (w : World) (op : Op) (pre : View) (hshow : ShowsDisk w pre)
+include hshow
+
+theorem c19_group3 :
+    firstFail (((rolledBackBy w.config op).map fun n =>
+      ((decide (installedBy op (postView env w op) = some n ∨ (postView env w op).art n = none), s!"C19: artifact of rolled-back patch {n} remains") : Bool × String)) : Checks) = none := by
+  rw [firstFail_none_iff]
+  intro ck hck
+  simp only [List.mem_map] at hck
+  obtain ⟨n, hn, rfl⟩ := hck
+  simp only [decide_eq_true_eq]
+  rw [postView_art]
+  -- a rollback list is only processed by an initialised check / update with a response
+  unfold rolledBackBy at hn
+  cases hc : w.config with
+  | none => simp [hc] at hn
+  | some c =>
+    cases hr : op.respOf with
+    | none => simp [hc, hr] at hn
+    | some r =>
+      simp only [hc, hr] at hn
+      have hsome : r.rolledBack.isSome = true := by cases h : r.rolledBack <;> simp [h] at hn ⊢
+      cases op with
+      | check chan resp =>
+        simp only [Op.respOf] at hr; subst hr
+        have hen : entersWith w.config (.check chan (some r)) = some c := by simp [entersWith, hc, hsome]
+        right
+        rw [step_disk_enter env w _ c hen, opDisk_norm env c w _ hen]
+        exact check_rollback_removes env c _ r n (normDisk_settled _ _) hn
+      | update chan sc =>
+        simp only [Op.respOf] at hr
+        have hen : entersWith w.config (.update chan sc) = some c := by simp [entersWith, hc]
+        rw [step_disk_enter env w _ c hen, opDisk_norm env c w _ hen, installedBy_update env w c hc]
+        simp only [opDisk]
+        have hnorm : updateCore env c (w.base c) w.disk sc =
+            updateCore env c (w.base c) (normDisk w.disk c.version) sc := by
+          unfold normDisk; split
+          · rfl
+          · rename_i hu; exact updateCore_clean env c w.disk hu _ sc
+        rw [hnorm]
+        have hst := normDisk_settled w.disk c.version
+        unfold updateCore
+        simp only [hr]
+        rw [secCopyEvents_disk c _ hst]
+        rcases afterCheck_rollback_removes env c (w.base c) (secClearEvents c (normDisk w.disk c.version)) r sc.dl n
+          (secClearEvents_settled c _ hst) hn with h | ⟨hi, o, hp, hon⟩
+        · right; exact h
+        · left
+          simp [hi, Op.offer, Op.respOf, hr, hp, hon]
+      | _ => simp [Op.respOf] at hr
+
+theorem c19_group5 (hg : True) :
+    firstFail ((if resetsState w.config op pre then
+      [(installedBy op (postView env w op) ≠ none ∨ (postView env w op).arts = [], "C19: artifacts remain after a release change")]
+     else []) : Checks) = none := by
+  cases hrs : resetsState w.config op pre with
+  | false => rfl
+  | true =>
+    simp only [if_true, firstFail]
+    have goal : installedBy op (postView env w op) ≠ none ∨ (postView env w op).arts = [] := by
+      unfold resetsState at hrs
+      cases hen : entersWith w.config op with
+      | none => simp [hen] at hrs
+      | some c =>
+        simp only [hen, decide_eq_true_eq] at hrs
+        have hu : ¬ Settled w.disk c.version := (resets_iff w pre hshow c).1 hrs
+        have harts : (postView env w op).arts = (step env w op).1.disk.artsList := rfl
+        rw [harts, step_disk_enter env w op c hen, opDisk_unsettled env c w op hen hu]
+        -- on the clean disk nothing exists; only an install creates an artifact
+        have hclean : ∀ k, (cleanDisk c.version).art k = none := fun k => rfl
+        by_cases hinst : ∃ chan sc, op = .update chan sc ∧
+            (updateCore env c (w.base c) (cleanDisk c.version) sc).2.1 = .installed
+        · left
+          obtain ⟨chan, sc, rfl, hi⟩ := hinst
+          have hc : w.config = some c := by simpa [entersWith] using hen
+          rw [installedBy_update env w c hc, updateCore_clean env c w.disk hu, hi]
+          simp only [if_true]
+          -- an install only happens for an offered patch
+          unfold updateCore at hi
+          simp only [] at hi
+          cases hr : sc.resp with
+          | none => simp [hr] at hi
+          | some r =>
+            simp only [hr] at hi
+            rcases afterCheck_cases env c (w.base c) _ r sc.dl with ⟨hni, _⟩ | ⟨o, _, _, _, hp, _⟩
+            · exact absurd hi hni
+            · simp [Op.offer, Op.respOf, hr, hp]
+        · right
+          apply artsList_nil_of_art_none
+          intro k
+          have := artSub_opDisk env c { w with disk := cleanDisk c.version } op (settled_clean _)
+            (by intro chan sc hop hi; exact hinst ⟨chan, sc, hop, hi⟩)
+          exact artSub_none this k (hclean k)
+    have : decide (installedBy op (postView env w op) ≠ none ∨ (postView env w op).arts = []) = true := decide_eq_true goal
+    rw [this]; rfl
+
+end
+
+end Updater
+
+namespace Updater
+
+section
+variable (env : Env) (w : World) (op : Op) (pre : View) (hshow : ShowsDisk w pre)
+include hshow
+
+theorem c19_group4 :
+    firstFail ((match installedBy op (postView env w op), pre.ps.next, (postView env w op).ps.last with
+      | some n, some p, some l =>
+        if p.number ≠ l.number ∧ p.number ≠ n ∧ pre.bootingNum ≠ some p.number ∧ ¬ resetsState w.config op pre
+           ∧ pre.lastNum = some l.number
+           ∧ ¬ (rolledBackBy w.config op).contains p.number ∧ ¬ (rolledBackBy w.config op).contains l.number then
+          [((postView env w op).art p.number = none, s!"C19: never-booted patch {p.number} replaced by install of {n} but its artifact remains")]
+        else []
+      | _, _, _ => []) : Checks) = none := by
+  cases hi : installedBy op (postView env w op) with
+  | none => rfl
+  | some n =>
+    cases hp : pre.ps.next with
+    | none => rfl
+    | some p =>
+      cases hl : (postView env w op).ps.last with
+      | none => rfl
+      | some l =>
+        simp only
+        split
+        · rename_i hcond
+          obtain ⟨hpl, hpn, hboot, hnr, hlast, hrbp, hrbl⟩ := hcond
+          simp only [firstFail]
+          have goal : (postView env w op).art p.number = none := by
+            rw [postView_art]
+            -- only an initialised update installs
+            cases op with
+            | update chan sc =>
+              cases hc : w.config with
+              | none => simp [installedBy, postView, step, update, hc, World.view] at hi
+              | some c =>
+                have hen : entersWith w.config (.update chan sc) = some c := by simp [entersWith, hc]
+                have hst : Settled w.disk c.version := by
+                  by_cases hu : Settled w.disk c.version
+                  · exact hu
+                  · exact absurd (resets_of_unsettled w pre hshow _ c hen hu) (by simpa using hnr)
+                rw [installedBy_update env w c hc] at hi
+                have hinst : (updateCore env c (w.base c) w.disk sc).2.1 = .installed := by
+                  by_cases h : (updateCore env c (w.base c) w.disk sc).2.1 = .installed
+                  · exact h
+                  · simp [h] at hi
+                rw [step_disk_enter env w _ c hen]
+                simp only [opDisk]
+                -- the pending patch at entry
+                have hps := ps_of_shows hshow
+                have hpend0 : Pending w.disk p l.number := by
+                  right
+                  refine ⟨by rw [← hps]; exact hp, ?_, ?_⟩
+                  · rw [← hps]; exact hboot
+                  · right
+                    have : pre.lastNum = some l.number := hlast
+                    unfold View.lastNum at this
+                    rw [hps] at this
+                    cases hl0 : (loadPatchesState w.disk).last with
+                    | none => simp [hl0] at this
+                    | some l0 => exact ⟨l0, rfl, by simpa [hl0] using this⟩
+                -- follow the stages
+                unfold updateCore at hinst ⊢
+                simp only [] at hinst ⊢
+                rw [secCopyEvents_disk c w.disk hst] at hinst ⊢
+                have h1 := secClearEvents_settled c w.disk hst
+                have p1 := secClearEvents_pending c w.disk p l.number hst hpend0
+                cases hr : sc.resp with
+                | none => simp [hr] at hinst
+                | some r =>
+                  simp only [hr] at hinst ⊢
+                  have hrb : rolledBackBy w.config (.update chan sc) = r.rolledBack.getD [] := by
+                    simp [rolledBackBy, hc, Op.respOf, hr]
+                  have hpnot : p.number ∉ r.rolledBack.getD [] := by
+                    rw [hrb] at hrbp; simpa using hrbp
+                  rcases afterCheck_cases env c (w.base c) (secClearEvents c w.disk) r sc.dl with
+                    ⟨hni, _⟩ | ⟨o, stream, b, out, hpo, _, _, _, _, _, _, _, e6⟩
+                  · exact absurd hinst hni
+                  · rw [e6]
+                    have h2 := rollBackIfNeeded_settled env c _ r.rolledBack h1
+                    have p2 := rollBackIfNeeded_pending env c _ p l.number r.rolledBack h1 hpnot p1
+                    have h3 := shouldInstall_settled env c _ o.number h2
+                    have p3 := shouldInstall_pending env c _ p l.number o.number h2 p2
+                    have hno : n = o.number := by
+                      simp [Op.offer, Op.respOf, hr, hpo] at hi; exact hi.2.symm
+                    apply secInstall_supersedes c _ p l.number o out h3 p3 (by rw [← hno]; exact hpn) hpl
+                    -- the last good patch recorded after the call is what the install section left
+                    have hd : (step env w (.update chan sc)).1.disk =
+                        secInstall c (shouldInstall env c (rollBackIfNeeded env c (secClearEvents c w.disk) r.rolledBack) o.number).1 o out := by
+                      rw [step_disk_enter env w _ c hen]
+                      simp only [opDisk, updateCore, hr]
+                      rw [secCopyEvents_disk c w.disk hst, e6]
+                    rw [post_ps, hd] at hl
+                    exact ⟨l, hl, rfl⟩
+            | _ => simp [installedBy] at hi
+          have : decide ((postView env w op).art p.number = none) = true := decide_eq_true goal
+          rw [this]; rfl
+        · rfl
+
+end
+
+/-- **C19.** Every model history is accepted by the C19 monitor:
+    (i) after a successful boot of `m` every remaining artifact is not lower than `m` or is the
+    next-boot patch; (ii) the artifact of a patch whose boot failure is recorded (report, or crash
+    detection at init) is gone after that call; (iii) so is the artifact of every number in a
+    rollback list, unless that same update re-installs it; (iv) an install that replaces a
+    never-booted pending patch `p`, while another patch is the last good one and `p` is not booting,
+    removes `p`'s artifact; (v) after a release change (or unreadable state) no artifact remains
+    unless that very call installed one. Arbitrary histories, damage included. -/
+theorem C19_holds (env : Env) (libs : List (String × Bytes)) (ops : List Op) :
+    mon19.accepts env (viewTrace env (World.fresh libs) ops) = true := by
+  apply Monitor.accepts_of_inv mon19 env libs (fun w g => g.cfg = w.config)
+  · rfl
+  · intro w g op pre hinv hshow
+    refine ⟨?_, ?_⟩
+    · simp only [mon19, hinv]
+      rw [firstFail_append, firstFail_append, firstFail_append, firstFail_append]
+      exact ⟨⟨⟨⟨c19_group1 env w op pre hshow, c19_group2 env w op pre hshow⟩, c19_group3 env w op pre hshow⟩,
+        c19_group4 env w op pre hshow⟩, c19_group5 env w op pre hshow trivial⟩
+    · simp only [mon19]
+      rw [step_config, hinv]
+
+end Updater
